@@ -329,3 +329,61 @@ def covers_all_columns(extent, xs):
             or m(('call~', ('::index', '::index_mut'), ('_', '_')), x) is not None
         return whole_row
     return False
+
+
+def loop_counter_of(f, R, e):
+    """e is a hand-written iteration counter: a local initialised to 0 outside a loop and incremented by exactly 1 once per iteration
+    (`let mut i = 0; for x in it { .. i += 1; }`).  Returns the loop header it counts, else None.  Equivalent to `.enumerate()`'s index
+    when the increment is on every path through the body (it post-dominates the loop's entry edge)."""
+    e = norm(e)
+    if e[0] != 'v':
+        return None
+    l = e[1]
+    ds = f.defs().get(l, [])
+    if len(ds) != 2:
+        return None
+    init = [d for d in ds if not any(d[0] in L['body'] for L in f.loops())]
+    incs = [d for d in ds if any(d[0] in L['body'] for L in f.loops())]
+    if len(init) != 1 or len(incs) != 1 or init[0][1] == 'term' or incs[0][1] == 'term':
+        return None
+    iv = norm(R.rvalue(init[0][2]))
+    if iv != ('k', 0):
+        return None
+    uv = norm(R.rvalue(incs[0][2]))
+    if m(('bin', 'Add', ('v', l), ('k', 1)), uv) is None:
+        # AddWithOverflow goes through a temporary tuple: (i + 1).0
+        mm = m(('bin', 'Add', '$a', ('k', 1)), uv)
+        if mm is None or mm['$a'] != ('v', l):
+            return None
+    inner = [L for L in f.loops() if incs[0][0] in L['body']]
+    if not inner:
+        return None
+    L = min(inner, key=lambda L_: len(L_['body']))
+    # the increment is executed on every iteration: its block dominates every latch of the loop
+    if not all(f.dominates(incs[0][0], lt) for lt in L['latches']):
+        return None
+    return L['header']
+
+
+def loop_of_elem(f, elem):
+    """Header of the loop driven by the iterator behind an ('elem', src, iter-local) expression (expression recovery names a loop by the
+    local that holds its iterator; CFG utilities name it by its header block)."""
+    it_local = elem[2]
+    for bi, t in f.calls():
+        c = f.callee_short(t) or ''
+        if c.endswith(('Iterator::next', 'range::next')) and t['args']:
+            a = t['args'][0]
+            pl = a.get('m') or a.get('c')
+            # next(&mut iter): the argument is a temporary reference to the iterator local
+            cand = {pl['l']} if pl else set()
+            for d in f.defs().get(pl['l'], []) if pl else []:
+                if d[1] != 'term' and d[2].get('k') in ('ref', 'rawptr'):
+                    cand.add(d[2]['p']['l'])
+                    for d2 in f.defs().get(d[2]['p']['l'], []):
+                        if d2[1] != 'term' and d2[2].get('k') in ('ref', 'rawptr'):
+                            cand.add(d2[2]['p']['l'])
+            if it_local in cand:
+                inner = [L for L in f.loops() if bi in L['body']]
+                if inner:
+                    return min(inner, key=lambda L_: len(L_['body']))['header']
+    return None
